@@ -12,9 +12,10 @@ def run(run, tier, seed):
                 "the samples genotyped 0 and before+ALT+after in exactly those genotyped 1 (0/1 = both, '.' = neither); every record "
                 "maps injectively to a planted indel (same length, allele a rotation of the planted bases on either strand, same "
                 "long-form samples). traces: ancestors with unique (k-1)-mers, 1-3 planted insertions/deletions of 1-10 bases >= 4k "
-                "apart, 3-8 samples, k in {11,15,21,31}, threads 1..4; reported/planted are summed for the 90% bound. non-trivial = "
+                "apart, 3-8 samples, k in {11,15,21,31}, threads 1..4; reported/planted are summed for the 90% bound, overall and for the "
+                "classes (k=11, 10 bases), (other k, 10 bases), (1 base). non-trivial = "
                 "precondition holds, an indel with a proper non-empty carrier set; distinct by scenario")
-    run.assumptions = ["'at least 90% of the planted indels are reported' is read as an aggregate over the run",
+    run.assumptions = ["'at least 90% of the planted indels are reported' is read as an aggregate over the run and over each named class of the stated domain",
                        "precondition: every derived sample has unique (k-1)-mers on both strands (coordinates shift behind an indel)",
                        "graph construction, extremities, compaction and path enumeration are modelled (LoGraph.tla) and replayed; indel de-replication and "
                        "allele extraction (process_indels.rs) are not: the relation is evaluated on recorded runs"]
@@ -38,6 +39,24 @@ def run(run, tier, seed):
                                          for recs in e["ctx"]["samples"])
         events += extra
     c17.finish(run, events, "c18", tier)
+    # classes of the stated domain with their own count: the longest indel "shorter than k" (10 bases at k = 11), the
+    # longest stated length at the other k, and single bases. Each is a population of genome sets the property quantifies
+    # over, so each must reach the 90 % by itself (same test as below).
+    classes = []
+    nq = 8 if tier == "quick" else 60
+    for label, ks, ln in (("k11_len10", [11], 10), ("k15to31_len10", [15, 21, 31], 10), ("len1", [11, 15, 21, 31], 1)):
+        evs = lodrv.indel_events(run, tier, seed + 1800 + ln + ks[0], "c18" + label, ks=ks, fixed_len=ln, n=nq)
+        ok, bad, states = vlib.validate_trace("Trace_Lo", evs, "c18-" + label, shards=4, timeout=1500)
+        run.states += states
+        run.transitions += len(evs)
+        run.events += ok
+        run.traces_validated += ok
+        for i in bad:
+            e = evs[i]
+            c = e.get("ctx", {})
+            run.fail({"kind": "trace", "event": e, "pre_literal": True, "pre_strict": bool(c.get("pre_strict", True)), "ev": e["ev"]},
+                     "%s rejected (%s): k=%s threads=%s panic=%s" % (e["ev"], label, c.get("k"), c.get("threads"), e.get("panic", "")[-120:]))
+        classes.append((label, vlib.LAST_EXTRA.get("planted", 0), vlib.LAST_EXTRA.get("reported", 0)))
     # "at least 90% reported" is a statement about a rate; a run observes a finite sample of it. To keep sampling
     # noise from raising an alarm, a stratum fails only when the observed count is significantly below 90%
     # (one-sided binomial test, p < 0.001 under a true rate of exactly 0.9).
@@ -58,6 +77,11 @@ def run(run, tier, seed):
         if too_few(planted, reported):
             run.fail({"kind": "completeness", "stratum": label, "planted": planted, "reported": reported},
                      "only %d of %d planted %s indels were reported (< 90%%)" % (reported, planted, label))
+    for label, planted, reported in classes:
+        run.extra[label + "_recall_test"] = "planted=%d reported=%d" % (planted, reported)
+        if too_few(planted, reported):
+            run.fail({"kind": "completeness", "stratum": label, "planted": planted, "reported": reported},
+                     "only %d of %d planted indels of class %s were reported (< 90%%)" % (reported, planted, label))
 
 
 def replay(run, path):
